@@ -20,6 +20,18 @@ CHECKS = {
    technique="explicit-state model checking (stateright): exhaustive enumeration of all Unicode scalars in contexts, bounded strings and generated length-boundary families on the real tokenizer built with debug assertions and overflow checks",
    text="Every Unicode scalar value (alone and in contexts), every string of the C01 trees, complete generated families around the 49,149 / 65,535 byte limits and cost extremes are tokenized by the real code with assertions on; panics, wrong Ok/Err verdicts (predicted by arithmetic) and unsafe accessors are violations. Exhaustive within those families; allocation failure and stack exhaustion are out of reach.",
    ref="DESIGN.md §3 C03"),
+ "C09": dict(
+   technique="explicit-state model checking (stateright): exhaustive bounded enumeration of texts on the real tokenizer in modes C/A/B plus on-demand splits, reference = split units declared in the CSV",
+   text="Every string within the bound, in worlds with system->system, user->system and user->user split references (numeric, U-prefixed, inline; three user dictionaries), units of 1/3/4-byte characters, words reached only through normalisation, headwords longer than keys and units that do not add up to the key, is tokenized in C, A and B; C boundaries must survive, unsplit tokens must be identical, the sub-tokens of a split token must be exactly the declared units tiling the parent, and split_into must equal direct tokenisation (false for words declaring none).",
+   ref="DESIGN.md §3 C09"),
+ "C10": dict(
+   technique="explicit-state model checking (stateright BFS, no de-duplication) over operation histories on one real tokenizer and reused result lists, differential against fresh objects",
+   text="Every sequence of up to `depth` operations out of 19 (set_mode, set_subset, analyse+collect of long/short/empty/over-long/normalisation-overflow/numeral/split texts, analyse without collect, collect alone, on-demand split into a reused list, lookup on the reused list, clear) is applied to one StatefulTokenizer and reused MorphemeLists; afterwards three probes analysed on the used objects must equal a fresh tokenizer with the same mode and field request in boundaries, word identities and every requested field; a failed analysis must leave the tokenizer usable.",
+   ref="DESIGN.md §3 C10"),
+ "C11": dict(
+   technique="explicit-state model checking (stateright): all 1024 field subsets x every word, and x every bounded text x modes x call orders, on the real lexicon reader and tokenizer, differential against the all-fields result",
+   text="Every word of a two-user-dictionary world x all 1024 subsets through LexiconSet::get_word_info_subset and through a tokenizer after set_subset: every requested field read through its public accessor equals the all-fields value (strings across the one/two-byte length prefix included). Every text within the bound x all 1024 subsets x modes A/B/C x both orders of set_mode/set_subset: surfaces partition the input; tokens equal the full analysis when no path-rewrite plugin is configured or the subset covers surface, POS and normalised form.",
+   ref="DESIGN.md §3 C11"),
  "C13": dict(
    technique="explicit-state model checking (stateright): exhaustive bounded enumeration of texts x definition-flag worlds on the real lattice builder, reference = textbook MeCab candidate model with greedy left-to-right class runs",
    text="For every string up to the bound over an alphabet with multi-class characters, combining marks (ALL NOOOVBOW), ZWJ (NOOOVBOW2), emoji modifiers and small kana, in worlds varying invoke/group/length of one class at a time and in six provider orders (MeCab, simple, regex strict/relaxed), the set of OOV nodes at every reachable lattice position, the class runs, the word-start flags and the fields of OOV morphemes are compared with the reference; runs of 62..130 characters cover the created-words bitset.",
@@ -32,10 +44,23 @@ CHECKS = {
    technique="explicit-state model checking (stateright) over sets of field deviations of a baseline lexicon/matrix: each accepted input is compiled twice, loaded at two alignments and read back field by field against the declaration",
    text="Baseline, every single deviation and every pair of deviations on different fields (string lengths around 127/128 UTF-16 units with BMP and astral characters, escapes, forms equal/different, dictionary-form and split references numeric / inline / U-prefixed, 127-item arrays, id and cost limits, matrices 1x1, 2x3, 3x2, 10x10) for system and user dictionaries: compiled on two threads with the same timestamp (byte-identical), loaded at buffer alignment offsets 0 and 1, every field of every entry and every matrix cell read back through the public readers.",
    ref="DESIGN.md §3 C05"),
+ "C14": dict(
+   technique="explicit-state model checking (stateright): exhaustive bounded enumeration of texts, differential between the same world with and without path-rewrite plugins under six plugin settings",
+   text="Every string within the bound over a numeral/katakana alphabet is tokenized (modes C and A) with the plugin-free world and with enableNormalize x minLength 1..3: boundaries with plugins must be a subset; every merged token must cover exactly the union of its parts, concatenate their dictionary-side surfaces, carry the prescribed part of speech and the last part's cumulative cost; every other token must be identical (a single numeral whose normalised form is rewritten counts as a merge of one).",
+   ref="DESIGN.md §3 C14"),
+ "C15": dict(
+   technique="explicit-state model checking (stateright): exhaustive bounded enumeration of strings over the numeral alphabet plus a generated value grid, reference = strict well-formed recogniser and classical evaluator in exact decimal arithmetic",
+   text="Every string within the bound over {0 1 2 5 〇 一 三 十 百 千 万 億 兆 , .} alone and embedded in text, with and without the plugin: every well-formed numeral must become exactly one token with the expected rendering; every joined token must have well-formed separators and a normalised form numerically equal to the classical value of its surface. All renderings (Arabic, kanji digits, comma groups, fractions, unit and coefficient notation) of d*10^k+e*10^j up to 10^40.",
+   ref="DESIGN.md §3 C15"),
  "C17": dict(
    technique="explicit-state model checking (stateright) over definition files built line by line: every file up to the bound is loaded by the real parser and queried on every probe code point, reference = naive union of covering lines; plus all scalars on the shipped files",
    text="Every sequence (all orders, duplicates) of up to 3-4 range lines from a menu of ranges x class sets over a small domain touching 0, and around the surrogate gap and the top of the code space, is loaded with the real CharacterCategory reader; every probe code point (all range ends and neighbours) must report exactly the union of the covering lines or DEFAULT; the three char.def files shipped in the repository are checked on all 1,112,064 scalar values.",
    ref="DESIGN.md §3 C17"),
+ "C06": dict(
+   level="fault_enumeration", engine="E1-stateright+E3-sink-faults",
+   technique="fault enumeration: every failure offset (error and Ok(0), whole and single-byte writes) of the compiler's output sink; plus explicit-state enumeration (stateright) of byte strings, hostile field deviations, matrix texts and builder call orders with an independent validator of every accepted output",
+   text="For the baseline system and user dictionaries a failing sink is injected at every byte offset (returning an error, returning Ok(0), accepting whole writes or one byte per call): compile must never report success, and short writes must not change the output. The input half enumerates every byte string up to the bound (all 256 byte values; a CSV-relevant alphabet) as system lexicon, user lexicon and matrix, a valid row with every single/pair of hostile field values and arities, 41 matrix texts and every builder call order up to length 4: no panic, and whenever success is reported an independent validator loads the dictionary, checks every indexed entry's ids against the matrix as the lookup formula indexes it, every reference, and analyses probe texts.",
+   ref="DESIGN.md §3 C06"),
  "C07": dict(
    technique="explicit-state model checking (stateright): all 1,112,064 scalars in context and all bounded strings through the real input-text plugins, compared state by state with a reference normaliser",
    text="The real DefaultInputText / ProlongedSoundMark / IgnoreYomigana plugins are run on every scalar value in several contexts (forcing both code paths) and on every string up to the bound over a trigger alphabet under four rewrite tables (prefix keys, multi-character keys and values, exempt characters), each table loaded twice; every result must equal the reference function written from the statement.",
